@@ -618,7 +618,9 @@ func ruleFixedTableIndex(c *eng.Ctx) {
 		if fn.Pkg == nil || fn.Blocks == nil {
 			continue
 		}
-		if fn.Name() == "init" && fn.Parent() == nil {
+		if (fn.Name() == "init" || strings.HasPrefix(fn.Name(), "init#")) && fn.Parent() == nil {
+			// package initialisers take no input: an index outside a table there fails every run, which the suite
+			// settles; this rule is about numbers that come from a document
 			continue
 		}
 		eng.Instrs(fn, true, func(in ssa.Instruction) {
